@@ -3,6 +3,7 @@ mod util;
 mod cmd_domains;
 mod cmd_transcript;
 mod cmd_vector;
+mod cmd_table;
 mod merkle;
 mod hashes;
 mod terms;
@@ -19,6 +20,7 @@ fn main() {
         "domains" => cmd_domains::run(rest),
         "transcript" => cmd_transcript::run(rest),
         "vector" => cmd_vector::run(rest),
+        "table" => cmd_table::run(rest),
         "build-info" => {
             println!("{}", build_info());
         }
